@@ -159,6 +159,24 @@ func c04TablePrograms() []c4prog {
 			short("k1", ts.TInt, il(0)),
 			ts.For{Kind: ts.ForEver, Body: []ts.Stmt{ts.IncDec{Name: "k1", Inc: true}, ts.If{Cond: b.tb(ts.Cmp{Op: ">", L: iv("k1"), R: il(2)}), Then: []ts.Stmt{ts.Break{}}}, pr(sl("e"), iv("k1"))}}}, nil
 	})
+	// loops that are LEFT early (return from an inner loop, break of an outer loop) and entered again: every entry starts
+	// with the initialisation and the condition, never with the increment of the previous visit
+	add("loops-re-entered", func(b *c4b) ([]ts.Stmt, []ts.Stmt) {
+		find := ts.FuncDef{Name: "find", Params: []ts.Param{{Name: "k", Ty: ts.TInt}}, Rets: []ts.Type{ts.TInt}, Body: []ts.Stmt{
+			ts.For{Kind: ts.ForClause, Init: short("fo", ts.TInt, b.ti(il(0))), Cond: b.tb(ts.Cmp{Op: "<", L: iv("fo"), R: il(3)}), Post: ts.OpAssign{Name: "fo", Ty: ts.TInt, Op: "+", Val: b.ti(il(1))},
+				Body: []ts.Stmt{
+					ts.For{Kind: ts.ForClause, Init: short("fi", ts.TInt, b.ti(il(0))), Cond: b.tb(ts.Cmp{Op: "<", L: iv("fi"), R: il(2)}), Post: ts.IncDec{Name: "fi", Inc: true},
+						Body: []ts.Stmt{ts.If{Cond: ts.Cmp{Op: "==", L: ts.Bin{Op: "+", Ty: ts.TInt, L: ts.Bin{Op: "*", Ty: ts.TInt, L: iv("fo"), R: il(2)}, R: iv("fi")}, R: iv("k")},
+							Then: []ts.Stmt{ts.Return{Vals: []ts.Expr{ts.Bin{Op: "+", Ty: ts.TInt, L: ts.Bin{Op: "*", Ty: ts.TInt, L: iv("fo"), R: il(10)}, R: iv("fi")}}}}}}}}},
+			ts.Return{Vals: []ts.Expr{il(-1)}}}}
+		call := func(k int64) ts.Stmt { return pr(sl("find"), ts.Call{Name: "find", Args: []ts.Expr{il(k)}, Rets: []ts.Type{ts.TInt}}) }
+		outer := func(name string) ts.Stmt {
+			return ts.For{Kind: ts.ForClause, Init: short(name, ts.TInt, b.ti(il(0))), Cond: b.tb(ts.Cmp{Op: "<", L: iv(name), R: il(3)}), Post: ts.OpAssign{Name: name, Ty: ts.TInt, Op: "+", Val: b.ti(il(1))},
+				Body: []ts.Stmt{ts.If{Cond: ts.Cmp{Op: "==", L: iv(name), R: il(1)}, Then: []ts.Stmt{ts.Break{}}}, pr(sl("in"), iv(name))}}
+		}
+		twice := ts.For{Kind: ts.ForClause, Init: short("rep", ts.TInt, il(0)), Cond: ts.Cmp{Op: "<", L: iv("rep"), R: il(2)}, Post: ts.IncDec{Name: "rep", Inc: true}, Body: []ts.Stmt{outer("ro")}}
+		return []ts.Stmt{call(1), call(1), call(3), call(0), call(9), twice}, []ts.Stmt{find}
+	})
 	add("switch-cases", func(b *c4b) ([]ts.Stmt, []ts.Stmt) {
 		mk := func(tag int64) ts.Stmt {
 			return ts.Switch{Tag: il(tag), Cases: []ts.Case{{E: b.ti(il(1)), Body: []ts.Stmt{pr(sl("one"))}}, {Default: true, Body: []ts.Stmt{pr(sl("default"))}}, {E: b.ti(il(2)), Body: []ts.Stmt{pr(sl("two"))}}, {E: ts.Bin{Op: "+", Ty: ts.TInt, L: b.tn(), R: il(0)}, Body: []ts.Stmt{pr(sl("n"))}}}}
